@@ -253,7 +253,7 @@ Plan gen_wc(uint64_t seed, const std::string& tier, const std::string& focus) {
     }
     // placement of the whole tissue: at the origin, far from it, straddling it, voxel aligned
     V3 shift; int place = (int)r.below(4); pl.p["place"] = place;
-    if (place == 1) shift = random_unit(r) * (R * std::pow(10.0, r.range(1, 3)));
+    if (place == 1) shift = random_unit(r) * (R * std::pow(10.0, (focus == "C06" && r.coin(0.3)) ? r.range(4, 6) : r.range(1, 3)));   // C06: also metres away from the origin (coordinates that single precision would not resolve to the cut-off)
     else if (place == 2) shift = V3(-ctr[n - 1].x * 0.5, -ctr[n - 1].y * 0.5, -ctr[n - 1].z * 0.5);
     else if (place == 3) { double vox = 3 * lmin + 2 * gcut; shift = V3(vox * r.range(-3, 3), vox * r.range(-3, 3), vox * r.range(-3, 3)) - V3(rad[0], rad[0], rad[0]) - V3(2 * gcut, 2 * gcut, 2 * gcut); }
     for (int k = 0; k < n; k++) {
